@@ -1,4 +1,5 @@
 import BM.Proofs.Step
+import BM.Props.Pins
 import BM.Proofs.Escape
 import BM.Proofs.Bytes
 /-
